@@ -21,8 +21,14 @@ import (
 	"verif/engine/mon"
 )
 
-// Repo is the tree under test.
-var Repo = "/repo"
+// Repo is the tree under test: /repo, unless PV_REPO names a scratch worktree (used only while
+// trying seeded breaks in parallel; registered commands never set it).
+var Repo = func() string {
+	if r := os.Getenv("PV_REPO"); r != "" {
+		return r
+	}
+	return "/repo"
+}()
 
 // VerifRoot is /verif.
 var VerifRoot = "/verif"
